@@ -111,7 +111,12 @@ def build(nd, ld):
             APPLIED.append(nd.sid)
             return d.map(f)
         return K[0].apply(ap, lazy=True)
-    if nd.op == 'filter': return K[0].filter(LogF(nd.sid, nd.a[0], pred=True))
+    if nd.op == 'filter':
+        # the documented default lazy=True, left out or spelled by any true value (a numpy bool from a comparison, 1 from a command line)
+        import numpy as np
+        sp = nd.sid % 4
+        if sp == 0: return K[0].filter(LogF(nd.sid, nd.a[0], pred=True))
+        return K[0].filter(LogF(nd.sid, nd.a[0], pred=True), lazy=(True, np.True_, 1)[sp - 1])
     if nd.op == 'batch': return K[0].batch(nd.a[0])
     if nd.op == 'unbatch': return K[0].unbatch()
     if nd.op == 'concat': return K[0].concatenate(K[1])
@@ -228,7 +233,13 @@ def run_b(prop, tier, want_prof):
             take_log()
             del EARLY[:]
             del APPLIED[:]
-            ds = build(nd, ld)
+            try:
+                ds = build(nd, ld)
+            except Exception as e:
+                # every generated pipeline is a valid construction (the model builds it): a refusal here is a failing input
+                built = take_log()
+                failures.append(dict(kind='program', summary=f'constructing {coq_lds(nd)[:300]} raised {type(e).__name__}: {e}'[:500] + (f'; user functions already applied: {built[:5]}' if built else ''), config={}))
+                continue
             built = take_log() + [('apply_fn', x) for x in APPLIED]
             if built:
                 failures.append(dict(kind='program', summary=f'constructing {coq_lds(nd)[:300]} already applied user functions: {built[:5]}', config={}))
